@@ -374,6 +374,25 @@ class Interp:
             except PyRaise as e:
                 for t in _targets_of(st):
                     env.set(t, VPoison(f"{m.relpath}:{st.lineno}: raised {e.exc}"))
+        # containers that exist after import are module-/class-level state: writes to them by a function are frame violations
+        seen = set()
+
+        def mark(v, depth=0):
+            if id(v) in seen or depth > 6:
+                return
+            seen.add(id(v))
+            if isinstance(v, (VDict, VList)):
+                v.global_ = True
+                for x in (v.items if isinstance(v, VList) else [e.value for e in v.entries.values()]):
+                    mark(x, depth + 1)
+            elif isinstance(v, VObj):
+                for x in v.attrs.values():
+                    mark(x, depth + 1)
+            elif isinstance(v, VClass) and v.info is not None and v.info.module is m:
+                for x in v.info.attrs.values():
+                    mark(x, depth + 1)
+        for v in env.vars.values():
+            mark(v)
         return m
 
     def get_func(self, relpath, qualname) -> FuncInfo:
